@@ -463,8 +463,22 @@ pub fn case(t: &mut Tape, ctx: &CaseCtx) -> CaseResult {
     }
 }
 
+/// regression inputs of the defects found so far (DESIGN.md 9.3 F1, F2; seeded change C19)
+fn regressions() -> Vec<(String, Box<dyn Fn() -> CaseResult>)> {
+    let mut v: Vec<(String, Box<dyn Fn() -> CaseResult>)> = vec![];
+    for m in [i64::MIN, i64::MIN + 1, -1, -999_999, -1_000_000, -500_000, 0, 1, i64::MAX] {
+        v.push((format!("micros round trip {m}"), Box::new(move || check_micros(m, false))));
+    }
+    for ns in [-1i128, -999, -1000, -1001, -1_000_000, -999_999_999, 1, 999, 1000] {
+        v.push((format!("wall epoch{ns:+}ns"), Box::new(move || check_wall(ns, false))));
+        v.push((format!("truncate epoch{ns:+}ns"), Box::new(move || check_truncate(ns, 0, false))));
+    }
+    v
+}
+
 pub fn run(mut run: Run) -> i32 {
     run.replay_committed(&case);
+    run.fixed("regression inputs (F1, F2, seeded C19)", regressions());
     run.enumerate("grid: micros boundaries", &[Tape::encode_choice(5, 7)], &[MICROS_GRID.len()], &case);
     run.enumerate("grid: boundary micros x sub-us remainder (wall + truncate)", &[Tape::encode_choice(6, 7)], &[MICROS_GRID.len(), 10], &case);
     let n = run.n(2_000_000, 40_000_000);
